@@ -12,6 +12,8 @@ import (
 	"net"
 	"strings"
 	"sync"
+	"sync/atomic"
+	"time"
 
 	ber "github.com/go-asn1-ber/asn1-ber"
 	goldap "github.com/go-ldap/ldap/v3"
@@ -65,6 +67,10 @@ type ldapResponder struct {
 	mu    sync.Mutex
 	log   []ldapSearch
 	conns []net.Conn
+
+	// domainSearchDelay (nanoseconds) holds back the answer to an (objectClass=domain) search: a
+	// directory that takes its time, so that calls of several goroutines on one Session overlap
+	domainSearchDelay atomic.Int64
 }
 
 func startResponder(answer func(base string, scope int, filter string) []ldapEntry) (*ldapResponder, error) {
@@ -177,6 +183,9 @@ func (s *ldapResponder) serve(conn net.Conn) {
 				}
 			}
 			rec := ldapSearch{base: base, scope: int(scope), filter: filter, wanted: wanted}
+			if d := s.domainSearchDelay.Load(); d > 0 && strings.EqualFold(filter, "(objectClass=domain)") {
+				time.Sleep(time.Duration(d))
+			}
 			for _, full := range s.answer(base, int(scope), filter) {
 				e := selectAttrs(full, wanted)
 				entry := ber.Encode(ber.ClassApplication, ber.TypeConstructed, 4, nil, "SearchResultEntry")
